@@ -91,21 +91,57 @@ def raw_init(vk, a):
 _classes = {}
 
 
-def owner_class(vk, minlen, maxlen):
-    key = (vk, minlen, maxlen)
+def falsy_members(falsy):
+    """an owner that is falsy while it is operated on (an empty collection-like model object): "len" defines
+    __len__ returning 0, "bool" defines __bool__ returning False"""
+    if falsy == "len":
+        return {"__len__": lambda self: 0}
+    if falsy == "bool":
+        return {"__bool__": lambda self: False}
+    return {}
+
+
+def owner_class(vk, minlen, maxlen, falsy=None):
+    key = (vk, minlen, maxlen, falsy)
     if key not in _classes:
         kw = {"minlen": minlen}
         if maxlen is not None:
             kw["maxlen"] = maxlen
-        _classes[key] = type("H_%s_%s_%s" % key, (HasTraits,), {"l": List(INNER[vk], **kw)})
+        members = {"l": List(INNER[vk], **kw)}
+        members.update(falsy_members(falsy))
+        _classes[key] = type("H%d" % len(_classes), (HasTraits,), members)
     return _classes[key]
+
+
+class Idx:
+    """an integer-like key that is not an int: only __index__"""
+
+    def __init__(self, n):
+        self.n = n
+
+    def __index__(self):
+        return self.n
+
+
+def int_key(op, i):
+    """the integer subscript of l[i] = v / del l[i]: an int, or (trailing marker) an object with __index__ only /
+    a numpy integer -- list accepts all of them"""
+    if op[-1] == "idx":
+        return Idx(i)
+    if op[-1] == "numpy":
+        try:
+            import numpy
+            return numpy.int64(i)
+        except ImportError:
+            return i
+    return i
 
 
 def make(case):
     init = [raw_init(case["vk"], a) for a in case["init"]]
     if case["target"] == "plain":
         return None, TraitList(init, item_validator=VALIDATORS[case["vk"]])
-    owner = owner_class(case["vk"], case.get("minlen", 0), case.get("maxlen"))()
+    owner = owner_class(case["vk"], case.get("minlen", 0), case.get("maxlen"), case.get("falsy"))()
     owner.l = init
     return owner, owner.l
 
@@ -171,11 +207,11 @@ def apply_op(tl, op):
     """Returns the atom returned by the operation (pop) or None."""
     k = op[0]
     if k == "SetInt":
-        tl[op[1]] = val(op[2])
+        tl[int_key(op, op[1])] = val(op[2])
     elif k == "SetSlice":
         tl[sl(op[1])] = arg_list(tl, op, op[2])
     elif k == "DelInt":
-        del tl[op[1]]
+        del tl[int_key(op, op[1])]
     elif k == "DelSlice":
         del tl[sl(op[1])]
     elif k == "Append":
